@@ -23,7 +23,7 @@ EXC = {"RuntimeError": RuntimeError, "ValueError": ValueError, "ZeroDivisionErro
 
 def cases(tier, seed):
     out = []
-    ns = 48 if tier == "quick" else 160
+    ns = 48 if tier == "quick" else 320
     Tmax = 40 if tier == "quick" else 150
     for i in range(ns):
         rng = scenario.rng_for(seed, "C16", i)
